@@ -60,7 +60,7 @@ class StubAssoc:
         self.requestor = types.SimpleNamespace(ae_title="PEER", address="127.0.0.1", port=11112, maximum_length=16382)
         self.acceptor = types.SimpleNamespace(ae_title="STUB", address="127.0.0.1", port=11113)
 
-    def _release(self):
+    def _release(self, consume=True):
         self.release_polls += 1
         return False
 
